@@ -33,7 +33,7 @@ THEOREMS = ["columns_any_layout", "columns_legacy_fails", "legacy_eq_of_ascendin
             "balanced_effect", "annotate_effect", "fill_lower_square", "fill_lower_symm", "header_effect",
             "range_effect", "row_columns", "table_columns_effect", "projectRow_spec",
             "load_dump_coo", "load_dump_bg2", "bin_start_facts", "bins_order", "validateChunk_perm",
-            "cooRec_of_layout", "bg2Rec_of_layout", "pairs_any_layout", "pairs_layout_independent", "cloadPairs_eq_spec_partial",
+            "cooRec_of_layout", "bg2Rec_of_layout", "pairs_any_layout", "pairs_layout_independent", "cloadPairs_eq_spec_partial", "cloadPairs_eq_spec",
             "parseFieldParam_spec", "parseFieldParam_refusals", "splitOn_joinWith"]
 LEVELS = {"constants": "unit", "dump": "top", "dump_layout": "unit", "dump_refuse": "top", "table": "top",
           "load": "top", "pairs": "top", "pandas_primitive": "unit", "field_param": "unit", "zoomify_spec": "top"}
